@@ -70,6 +70,7 @@ type result struct {
 	Execs       int            `json:"execs"`
 	Changed     int            `json:"changed"`
 	ByBound     map[string]int `json:"by_bound"` // executions per number of deviations
+	ByMode      map[string]int `json:"by_mode"`
 	Findings    []finding      `json:"findings,omitempty"`
 	Samples     []sample       `json:"samples,omitempty"`
 	Replays     int            `json:"replays"`
@@ -92,7 +93,22 @@ func (f *finding) key() string {
 	if len(f.Causes) > 0 {
 		c = strings.Join(f.Causes, "+")
 	}
-	return fmt.Sprintf("C11/%s pod=%s fault=%s", f.What, f.Pod, c)
+	return fmt.Sprintf("C11/%s kind=%s fault=%s", f.What, f.Pod, c)
+}
+
+// podClass maps a scenario (pod kind) to the coarse class used in violation keys.
+func podClass(scenario string) string {
+	switch {
+	case scenario == "whole-gpu":
+		return "whole-gpu"
+	case scenario == "dra-claim":
+		return "dra"
+	case scenario == "fraction-dra-claim":
+		return "single-fraction+dra"
+	case strings.HasPrefix(scenario, "multi-fraction"):
+		return "multi-fraction"
+	}
+	return "single-fraction"
 }
 
 func specSize(s Spec) int {
@@ -123,9 +139,16 @@ func subset(a, b []string) bool {
 func minimise(all []finding) []finding {
 	type gk struct{ what, pod string }
 	groups := map[gk][]finding{}
+	// every cause set that produces SOME finding on a pod class: a finding whose cause set strictly
+	// contains one of them is explained by the smaller fault set and is not reported separately.
+	causeSets := map[string]map[string][]string{}
 	for _, f := range all {
 		k := gk{f.What, f.Pod}
 		groups[k] = append(groups[k], f)
+		if causeSets[f.Pod] == nil {
+			causeSets[f.Pod] = map[string][]string{}
+		}
+		causeSets[f.Pod][strings.Join(f.Causes, "+")] = f.Causes
 	}
 	var out []finding
 	for _, fs := range groups {
@@ -140,14 +163,20 @@ func minimise(all []finding) []finding {
 		}
 		for ck, f := range best {
 			minimal := true
-			for ok2, g := range best {
+			for _, g := range causeSets[f.Pod] { // any symptom, non-empty smaller fault set
+				if len(g) > 0 && len(g) < len(f.Causes) && subset(g, f.Causes) {
+					minimal = false
+					break
+				}
+			}
+			for ok2, g := range best { // same symptom (also subsumed by a fault-free occurrence)
 				if ok2 != ck && len(g.Causes) < len(f.Causes) && subset(g.Causes, f.Causes) {
 					minimal = false
 					break
 				}
 			}
 			if minimal {
-				f.Msg = fmt.Sprintf("%s (seen on %d explored executions with exactly this cause set; %d executions of this pod kind show the same symptom in total)", f.Msg, count[ck], len(fs))
+				f.Msg = fmt.Sprintf("%s (seen on %d explored executions with exactly this cause set; %d executions of this pod class show the same symptom in total)", f.Msg, count[ck], len(fs))
 				out = append(out, f)
 			}
 		}
@@ -173,8 +202,15 @@ type scenInfo struct {
 	chainTag  []string
 }
 
-func outcomeSig(a *AttemptObs) string {
+// stateSig identifies a chained start state (the crashed flag matters: a restart follows).
+func stateSig(a *AttemptObs) string {
 	return fmt.Sprintf("err=%v crashed=%v\n%s", a.Err != "", a.Crashed, a.AfterCanon)
+}
+
+// outcomeSig is what "the deviation changed the outcome" compares: the canonical store after the
+// attempt and whether the reconcile reported an error (the crashed flag alone does not count).
+func outcomeSig(a *AttemptObs) string {
+	return fmt.Sprintf("err=%v\n%s", a.Err != "" && !a.Crashed, a.AfterCanon)
 }
 
 func phase1(cfg tierCfg) ([]scenInfo, error) {
@@ -211,7 +247,7 @@ func phase1(cfg tierCfg) ([]scenInfo, error) {
 			if err != nil {
 				return nil, err
 			}
-			sig := outcomeSig(&oo.Attempts[0])
+			sig := stateSig(&oo.Attempts[0])
 			if seen[sig] {
 				continue
 			}
@@ -290,7 +326,7 @@ func (r *runner) exec(sc *br.Scenario, spec Spec, ref *AttemptObs, nDev int) *Ou
 		}
 	}
 	for _, f := range o.Findings {
-		r.res.Findings = append(r.res.Findings, finding{What: f.Key, Pod: sc.Name, Causes: causesOf(o, f), Msg: f.Msg + " | choice sequence: " + spec.String() + " | deviated calls: " + devCalls(o), Spec: spec})
+		r.res.Findings = append(r.res.Findings, finding{What: f.Key, Pod: podClass(sc.Name), Causes: causesOf(o, f), Msg: f.Msg + " | choice sequence: " + spec.String() + " | deviated calls: " + devCalls(o), Spec: spec})
 	}
 	if len(r.res.Samples) < 2 && (nDev > 0) && (changed || len(o.Attempts) > 1) {
 		r.res.Samples = append(r.res.Samples, sample{Choice: spec.String() + " deviated: " + devCalls(o), Outcome: append([]string{fmt.Sprintf("attempt err=%q crashed=%v recovery rounds=%d", last.Err, last.Crashed, o.Recovery.Rounds)}, o.Final...), Changed: changed})
@@ -450,11 +486,12 @@ func run(tier string) int {
 			if ji%n != idx {
 				continue
 			}
-			rn.res = &result{Job: ji, ByBound: map[string]int{}}
+			rn.res = &result{Job: ji, ByBound: map[string]int{}, ByMode: map[string]int{}}
 			if budget.Exceeded() {
 				rn.res.Skipped = 1
 			} else {
 				rn.runJob(byName[j.Scenario], j)
+				rn.res.ByMode[j.Mode+":"+j.Scenario] += rn.res.Execs
 			}
 			engine.Emit(rn.res)
 		}
@@ -480,7 +517,7 @@ func run(tier string) int {
 		workers = 1
 	}
 	rep := engine.NewReporter("C11")
-	agg := result{ByBound: map[string]int{}}
+	agg := result{ByBound: map[string]int{}, ByMode: map[string]int{}}
 	var samples []sample
 	jobsDone := 0
 	var allFindings []finding
@@ -502,6 +539,9 @@ func run(tier string) int {
 		agg.Diverged = append(agg.Diverged, r.Diverged...)
 		for k, v := range r.ByBound {
 			agg.ByBound[k] += v
+		}
+		for k, v := range r.ByMode {
+			agg.ByMode[k] += v
 		}
 		allFindings = append(allFindings, r.Findings...)
 		samples = append(samples, r.Samples...)
@@ -527,7 +567,7 @@ func run(tier string) int {
 			again := false
 			if err == nil {
 				for _, g := range o.Findings {
-					gg := finding{What: g.Key, Pod: sc.Name, Causes: causesOf(o, g)}
+					gg := finding{What: g.Key, Pod: podClass(sc.Name), Causes: causesOf(o, g)}
 					if gg.key() == f.key() {
 						again = true
 					}
@@ -580,6 +620,7 @@ func run(tier string) int {
 		"rule":                      "number of distinct (pod kind, start state [fresh | end state of a previous faulted attempt], deviation point, deviation kind) cases whose post-attempt outcome (canonical store, error returned, crashed) differs from the fault-free attempt from the same start state; each case is enumerated exactly once",
 		"samples":                   append([]any{ffSample}, toAny(samples)...),
 		"executions_by_deviations":  agg.ByBound,
+		"executions_by_mode_and_pod_kind": agg.ByMode,
 		"deviation_bound_completed": bound,
 		"pairs_scope":               cfg.pairsNote,
 		"deviation_kinds":           kindsOf(cfg),
@@ -662,6 +703,10 @@ func replay(path string) int {
 		for _, c := range a.Calls {
 			fmt.Println("   ", c.String())
 		}
+		fmt.Println("  store after the attempt:")
+		for _, l := range strings.Split(strings.TrimSpace(a.AfterCanon), "\n") {
+			fmt.Println("     ", l)
+		}
 	}
 	fmt.Printf("recovery: rounds=%d converged=%v syncErr=%q errs=%v\nfinal store:\n", o.Recovery.Rounds, o.Recovery.Converged, o.Recovery.SyncErr, o.Recovery.ReconErrs)
 	for _, l := range o.Final {
@@ -669,7 +714,7 @@ func replay(path string) int {
 	}
 	found := false
 	for _, f := range o.Findings {
-		ff := finding{What: f.Key, Pod: sc.Name, Causes: causesOf(o, f)}
+		ff := finding{What: f.Key, Pod: podClass(sc.Name), Causes: causesOf(o, f)}
 		fmt.Printf("  oracle: %s: %s\n", ff.key(), f.Msg)
 		if ff.key() == v.Key {
 			found = true
